@@ -41,7 +41,8 @@ Fixpoint dec_digits (fuel : nat) (n : N) (acc : bytes) : bytes :=
   | S f => let acc' := n2b (48 + n mod 10) :: acc in
            if (n <? 10)%N then acc' else dec_digits f (n / 10)%N acc'
   end.
-Definition fmt_N (n : N) : bytes := dec_digits (S (N.size_nat n)) n [].
+(* fuel: a number has at most 1 + log2 n decimal digits *)
+Definition fmt_N (n : N) : bytes := dec_digits (S (N.to_nat (N.log2 n))) n [].
 Definition fmt_Z (z : Z) : bytes :=
   if (z <? 0)%Z then ch_minus :: fmt_N (Z.to_N (- z)) else fmt_N (Z.to_N z).
 
